@@ -3,7 +3,7 @@
 N=$1; shift
 SRC=/verif/benign/$N; [ -d $SRC ] || SRC=/verif/seeded/$N
 P=/var/tmp/rusty_paseto_verif/mut/$N/repo
-[ -d $P ] || /verif/tools/mkmut.sh $SRC/patch.diff $N >/dev/null
+[ -d $P ] || ${VERIF:-/verif}/tools/mkmut.sh $SRC/patch.diff $N >/dev/null
 for c in "$@"; do
-  PV_REPO=$P PV_EVIDENCE_DIR=/tmp/ev /verif/check $c 2>&1 | grep -v '^WARNING conda' | grep -v "^VIOLATION" | sed "s#$P/##g" | cut -c1-${CUT:-700}
+  PV_REPO=$P PV_EVIDENCE_DIR=/tmp/ev ${VERIF:-/verif}/check $c 2>&1 | grep -v '^WARNING conda' | grep -v "^VIOLATION" | sed "s#$P/##g" | cut -c1-${CUT:-700}
 done
